@@ -54,7 +54,7 @@ def wikis(draw):
     def contrib():
         return [sorted(draw(st.lists(st.sampled_from(NAMES), max_size=4, unique=True))), draw(st.integers(0, 3))]
 
-    nimg = draw(st.integers(0, 3))
+    nimg = draw(st.integers(0, 5))
     images = ["File:Img%d.png" % i for i in range(1, nimg + 1)]
     ntmpl = draw(st.integers(0, 3))
     tmpls = ["Template:T%d" % i for i in range(1, ntmpl + 1)]
@@ -106,7 +106,20 @@ def wikis(draw):
     if not items:
         items.append([arts[0], None])
     items = list(draw(st.permutations(items)))
-    limits = dict(request=draw(st.sampled_from([1, 2, 3, 5, 50])), result=draw(st.sampled_from([1, 2, 3, 10, 50])), rv=draw(st.sampled_from([1, 2, 50])))
+    limits = dict(request=draw(st.sampled_from([1, 1, 2, 2, 3, 5, 50])), result=draw(st.sampled_from([1, 2, 3, 10, 50])), rv=draw(st.sampled_from([1, 2, 50])))
+    if draw(st.booleans()):
+        kinds = ["siteinfo", "imageinfo", "images", "revisions", "contributors", "expandtemplates", "parse", "error", "categories"]
+        limits["kind_latency"] = {k: draw(st.sampled_from([0, 0, 1, 3, 8])) for k in draw(st.lists(st.sampled_from(kinds), max_size=3, unique=True))}
+    if draw(st.integers(0, 3)) == 0:
+        # a page that does not exist, listed so that it sorts after everything else
+        items.append(["Zz missing", None])
+    if draw(st.integers(0, 5)) == 0:
+        # error answers that arrive after everything else while the request slots are saturated
+        items += [["Zz missing", None], ["Zy missing", None]]
+        items = [list(x) for x in dict.fromkeys(tuple(i) for i in items)]
+        limits["request"] = draw(st.sampled_from([1, 2]))
+        limits.setdefault("kind_latency", {})["error"] = draw(st.sampled_from([3, 8, 20]))
+        limits["slow-errors"] = True
     latency = draw(st.lists(st.integers(0, 3), max_size=30))
     return dict(pages=pages, commons=commons, items=items, limits=limits, latency=latency, noimages=draw(st.integers(0, 4)) == 0)
 
@@ -180,6 +193,14 @@ def run_case(ctx, case):
     fetch._get_download_client = lambda url: Client()
     fetch.Fetcher.titles_pending_contributor_lookup.clear()
     fetch.Fetcher.title_mapping.clear()
+    from mwlib.utils import conf
+
+    saved_conf = {}
+    if not conf.config.has_section("fetch"):
+        conf.config.add_section("fetch")
+    for key, val in (("api_request_limit", case["limits"]["request"]), ("api_result_limit", case["limits"]["result"]), ("rvlimit", case["limits"]["rv"])):
+        saved_conf[key] = conf.config["fetch"].get(key)
+        conf.config["fetch"][key] = str(val)
     out = os.path.join(ctx.workdir, "c11-%d" % os.getpid())
     shutil.rmtree(out, ignore_errors=True)
 
@@ -301,8 +322,15 @@ def run_case(ctx, case):
             labels.add("continuation-served")
         if case["noimages"]:
             labels.add("no-images")
+        if case["limits"].get("slow-errors"):
+            labels.add("slow-error-answers")
         ctx.note("api_requests", len(log.requests))
     finally:
+        for key, val in saved_conf.items():
+            if val is None:
+                conf.config.remove_option("fetch", key)
+            else:
+                conf.config["fetch"][key] = val
         sapi.MwApi = real
         for mod, attr, old in patched:
             setattr(mod, attr, old)
